@@ -51,6 +51,15 @@ CLAIMED = {
  "C19": dict(engine="E3", technique="exhaustive small-scope enumeration against all complete extensions",
    text="EquivalencyComputer on every labelled digraph with <=4 arguments and sparse 5-argument iso-classes, compact and duplicate-attack presentation: every pair of merged arguments compared on ALL complete extensions; partition, totality, inverse mappings, reduced labels.",
    note="soundness of merging only; nothing demanded about coarseness", ref="4 C19"),
+ "C05": dict(engine="E5 process sweep", technique="exhaustive enumeration of command-line invocations as real processes, judged by the reference model",
+   text="Every (instance file, problem, argument, option configuration) of a finite product is run as a real process of crustabri solve and crustabri_iccma23: thorough = U(<=2) x 21 problems x arguments x 3 reader settings x 4 encodings x certificate x logging, all 104 classes of U(3) and S with a reduced product (~85 k processes); quick = the same product on <=1 argument, reduced on 2 arguments, minimal on 6 three-argument classes (~6 k processes). stdout parsed with the answer grammar and judged semantically; 296 malformed invocations of 40 classes must exit non-zero without any answer line; the --problems listing must be exactly the 21 accepted problems (three spellings).",
+   note="each process costs ~65 ms (the binaries scan /proc at start-up), which bounds the quick tier", ref="4 C05, 2.5"),
+ "C06": dict(engine="E1+E2+E5", technique="exhaustive configuration matrix over the oracle choice tree + bounded exploration of query sequences on one solver object",
+   text="(a) for every framework with <=3 arguments, problem and argument, the statuses of ALL cells {encoders} x {CaDiCaL, every leaf of the complete oracle choice tree} x {certificate flag} must coincide (no reference), external-process cells judged against the reference; (b) every sequence of <=3 queries (U(<=2)) / 2 queries (U(3), S) on ONE solver object per (solver type, encoder): same status as a fresh object, valid answer, framework state byte-identical afterwards.",
+   note="same trusted base as C01; sequences of length 3 on U(3) only in thorough", ref="4 C06"),
+ "C11": dict(engine="E3 (small scope) + finite grid", technique="exhaustive enumeration of presentations of all small frameworks; complete finite grid of large structured frameworks with reference-free oracles",
+   text="Small scope: every framework with <=3 arguments in every argument permutation x attack-line order x duplication pattern x reader, and united with 8 companions in 3 placements; every sparse 4-argument class under all 24 permutations; hybrid-threshold frameworks united with one another under every encoder; all judged by the reference and the locality rule. Large scope (20-300 arguments, no reference possible): 10 structured families x sizes x 15 presentations + 3 unions; statuses must equal the identity presentation's, cross-semantics consistency rules must hold, every returned set is verified directly.",
+   note="the universal claim over all large frameworks is outside any exhaustive bound: decided are the complete small scope and the complete finite grid (CaDiCaL only on the grid)", ref="4 C11, 8"),
 }
 
 NOT_YET = {
